@@ -44,6 +44,7 @@ type c06Outcome struct {
 	Drained  bool
 	Deadlock bool
 	Sizes    []int
+	Late     []string // lexers that handed a token over after having been cancelled
 	States   []string // the scheduler's view of every goroutine when a deadlock was declared
 }
 
@@ -95,7 +96,7 @@ func c06RunOnce(c c06Case, choices []int, trace bool) (c06Outcome, []string) {
 		})
 		o.After = len(c.Src) - rd.Len()
 	}
-	o.Alive, o.Drained, o.Deadlock, o.Sizes = res.AliveAtExit, res.Drained, res.Deadlock, res.Choices
+	o.Alive, o.Drained, o.Deadlock, o.Sizes, o.Late = res.AliveAtExit, res.Drained, res.Deadlock, res.Choices, res.LateHandOver
 	for _, l := range res.Trace {
 		if strings.HasPrefix(l, "STATE") {
 			o.States = append(o.States, l)
@@ -112,6 +113,35 @@ func c06Compare(c c06Case, outs []c06Outcome, scheds [][]int) error {
 		anyErr = anyErr || o.Err != ""
 	}
 	relaxed := anyErr && excluded["no_join_on_error_paths"] && !c.Strict
+	// The open finding (no join of the top-level lexer) lets a lexer run at
+	// most to its next hand-over after its parser has failed: there it finds
+	// the cancellation and stops. A run in which a cancelled lexer does hand a
+	// token over is outside that finding: error and amount consumed are then
+	// compared across the schedules although the call fails.
+	late := -1
+	for i, o := range outs {
+		if len(o.Late) > 0 && late < 0 {
+			late = i
+		}
+	}
+	if c.Kind != "parse" {
+		// the arithmetic evaluator reports its own faults through the lexer's
+		// error slot and yyParse goes on asking for tokens afterwards: hand-overs
+		// after the cancellation are part of its design
+		late = -1
+	}
+	if relaxed && late >= 0 {
+		for i, o := range outs {
+			if o.Deadlock || !o.Drained {
+				continue
+			}
+			a := outs[late]
+			if o.Err != a.Err || o.Consumed != a.Consumed || o.Result != a.Result {
+				return fmt.Errorf("%s %q: under schedule %v the cancelled lexer %v still hands a token over and lexes on (error %q, %d bytes consumed); under schedule %v the call gives error %q, %d bytes consumed",
+					c.Kind, c.Src, scheds[late], a.Late, a.Err, a.Consumed, scheds[i], o.Err, o.Consumed)
+			}
+		}
+	}
 	for i, o := range outs {
 		where := fmt.Sprintf("%s %q under schedule %v", c.Kind, c.Src, scheds[i])
 		if o.Deadlock {
@@ -231,11 +261,13 @@ func c06Explore(c c06Case, limit int, extra [][]int) (runs int, exhausted bool, 
 				return runs, exhausted, &cc, e1
 			}
 		}
-		for i := 1; i < len(outs); i++ {
-			cc := c
-			cc.Schedules = [][]int{scheds[0], scheds[i]}
-			if e2 := c06Compare(cc, []c06Outcome{outs[0], outs[i]}, cc.Schedules); e2 != nil {
-				return runs, exhausted, &cc, e2
+		for j := 0; j < len(outs) && j < 400; j++ {
+			for i := j + 1; i < len(outs); i++ {
+				cc := c
+				cc.Schedules = [][]int{scheds[j], scheds[i]}
+				if e2 := c06Compare(cc, []c06Outcome{outs[j], outs[i]}, cc.Schedules); e2 != nil {
+					return runs, exhausted, &cc, e2
+				}
 			}
 		}
 		cc := c
